@@ -43,7 +43,7 @@ FUNCS = {
             # C09: nothing may be cut off by the close: no transfer queued / in progress / unacknowledged and
             # no octets in the message buffers ...
             ('closes_only_when_idle', 'implies(closed(self) and not old(closed(self)), self._in_term and idle_spec(self))', ['C09']),
-            # ... and also no octets still in the connection buffer (recorded finding: see known_findings.json)
+            # ... and also no octets still in the connection buffer (was a recorded finding, repaired by d1b9697)
             ('closes_only_when_drained', 'implies(closed(self) and not old(closed(self)), drained(self))', ['C09']),
             ('unchanged_unless_closing', 'implies(not (self._in_term and idle_spec(self)), close_fields_kept(self))', []),
             ('tls_socket_dropped_on_close', 'implies(not old(closed(self)) and closed(self), self._Connection__s_tls is None) and '
